@@ -10,10 +10,15 @@ mod c15;
 mod c16;
 mod c17;
 mod c26;
+mod c27;
 mod tsx;
 mod progx;
 mod sweep;
 mod project;
+mod c10;
+mod c25;
+mod tsrun;
+mod resp;
 use mc_core::*;
 
 fn main() {
@@ -42,6 +47,9 @@ fn main() {
         "C16" => std::process::exit(c16::main(&args)),
         "C17" => std::process::exit(c17::main(&args)),
         "C26" => std::process::exit(c26::main(&args)),
+        "C27" => std::process::exit(c27::main(&args)),
+        "C10" => std::process::exit(c10::main(&args)),
+        "C25" => std::process::exit(c25::main(&args)),
         "show" => {
             // show <menu> <k> <index|all>
             let m = match args.rest[0].as_str() { "args" => progx::Menu::Args, "abstract" => progx::Menu::Abstract, "cycles" => progx::Menu::Cycles, "clientargs" => progx::Menu::ClientArgs, "overlap" => progx::Menu::Overlap, "decls" => progx::Menu::Decls, "pointers" => progx::Menu::Pointers, _ => progx::Menu::General };
